@@ -111,6 +111,22 @@ def wl_histories(ctx, rng, case_no):
         return
     interesting = 0
     steps = rng.randint(1, 14)
+    deep = rng.random() < 0.2
+    if deep:
+        # a long run of (mostly inheriting) pushes: stacks 10-30 deep, then lookups and pops
+        for k in range(rng.randint(8, 30)):
+            theme, expect, inh_d = rand_theme(rng)
+            inherit = rng.random() < 0.93
+            log.append(["push", sorted(expect), {"defaults": inh_d, "inherit": inherit}])
+            console.push_theme(theme, inherit=inherit)
+            tm = theme_map(expect, inh_d)
+            model.append({**model[-1], **tm} if inherit else dict(tm))
+            interesting += 1
+            if k % 3 == 2 or k >= 8:
+                if not check_lookups(ctx, console, model, log, universe):
+                    ctx.case_done(("h", repr(log)), False)
+                    return
+        ctx.hist("max_stack_depth", min(len(model) // 5 * 5, 30))
 
     def do_steps(n, depth):
         nonlocal interesting
